@@ -28,6 +28,14 @@ theorem getInfo_error {db : Db} {id : Nat} {e : Err} (h : getInfo db id = .error
   · next hn => injection h with h; exact ⟨h.symm, hn⟩
   · cases h
 
+theorem needsUploading_error {db : Db} {id now : Nat} {term : String} {thr : Thresholds} {e : Err}
+    (h : needsUploading db id term thr now = .error e) : e = .valueError ∧ fromId id = none := by
+  unfold needsUploading at h
+  split at h
+  · next e' he => injection h with h; subst h; exact getInfo_error he
+  · cases h
+  · split at h <;> cases h
+
 theorem lookupBlock_error {cfg : Cfg} {req : Req} {now pick : Nat} {db : Db} {e : Err} (hinv : DbInv db)
     (hs : req.space ∈ Space.all) (hu : req.sub.valid = true)
     (h : lookupBlock cfg req now pick db = .error e) : ∃ why, e = .badChoice why := by
@@ -223,14 +231,25 @@ theorem pstep_error {cfg : Cfg} {p : PState} {db : Db} {e : Err} (hinv : DbInv d
       · cases h
     | needsRow id term thr now desc => simp only [] at h; split at h <;> cases h
     | needsAgo id term thr now desc r => simp only [] at h; cases h
-    | uinfoRow id term => simp only [] at h; split at h <;> cases h
-    | uinfoAgo id term r => simp only [] at h; cases h
+    | needs id term thr now =>
+      simp only [] at h
+      split at h
+      · next e' he =>
+        injection h with h; subst h
+        have := needsUploading_error he
+        exact Or.inr ⟨this.1, id, rfl, this.2⟩
+      · cases h
+    | uinfo id term => simp only [] at h; cases h
     | info id =>
       simp only [] at h
       split at h
       · next e' he => injection h with h; subst h; exact Or.inr ⟨(getInfo_error he).1, id, rfl, (getInfo_error he).2⟩
       · cases h
-    | count todo u acc => cases todo <;> (simp only [] at h; cases h)
+    | count todo u acc =>
+      match todo with
+      | [] => simp only [] at h; cases h
+      | [s] => simp only [] at h; cases h
+      | s :: s' :: todo => simp only [] at h; cases h
     | finished r => simp only [] at h; cases h
 
 /-! ## what a `get_id` block that returns an id did to that id's row -/
